@@ -1,17 +1,1684 @@
-//! C02 — correspondence driver (stub: not built yet).
+//! C02 — tensor view adaptors and their compositions.  See lean/Driver/C02.lean for the protocol.
+//!
+//! Compositions are built at run time as `Box<dyn TensorMut<u64, D>>` (one enum arm per
+//! dimensionality 0..=6); the leaves are `&'static mut Tensor<u64, D>` / `TensorRefMatrix` over
+//! `&'static mut Matrix<u64>` borrowed from an arena of raw pointers, so that after a write the
+//! view can be dropped and the leaves scanned directly.  The views are rebuilt from the recipe
+//! (the accepted operations of the case) whenever a source was consumed by a rejected constructor
+//! or dropped for a scan.  A catalogue of statically typed compositions exercises the non-boxed
+//! forms (tuples, arrays, `&`, `&mut`, owned, `TensorView`/`Tensor` convenience methods).
 
 use crate::util::*;
+use easy_ml::interop::{MatrixRefTensor, TensorRefMatrix};
+use easy_ml::matrices::views::{MatrixMut, MatrixRange, MatrixRef};
+use easy_ml::matrices::Matrix;
+use easy_ml::tensors::indexing::{TensorAccess, TensorTranspose};
+use easy_ml::tensors::views::{
+    DataLayout, IndexRange, TensorChain, TensorExpansion, TensorIndex, TensorMask, TensorMut,
+    TensorRange, TensorRef, TensorRename, TensorReverse, TensorStack, TensorView,
+};
+use easy_ml::tensors::Tensor;
 
-pub fn gen(_g: &mut Gen) {}
+const SENTINEL: u64 = 999_999_999_999;
+const LEAF_MUL: u64 = 1_000_000;
 
-pub struct Runner;
+type Dyn<const D: usize> = Box<dyn TensorMut<u64, D>>;
+
+enum DV {
+    D0(Dyn<0>),
+    D1(Dyn<1>),
+    D2(Dyn<2>),
+    D3(Dyn<3>),
+    D4(Dyn<4>),
+    D5(Dyn<5>),
+    D6(Dyn<6>),
+}
+
+macro_rules! dv_each {
+    ($dv:expr, $v:ident => $body:expr) => {
+        match $dv {
+            DV::D0($v) => $body,
+            DV::D1($v) => $body,
+            DV::D2($v) => $body,
+            DV::D3($v) => $body,
+            DV::D4($v) => $body,
+            DV::D5($v) => $body,
+            DV::D6($v) => $body,
+        }
+    };
+}
+
+/// `$body : Result<Dyn<D>, Rej>` for the same `D` as the matched arm.
+macro_rules! dv_same {
+    ($dv:expr, $v:ident => $body:expr) => {
+        match $dv {
+            DV::D0($v) => $body.map(DV::D0),
+            DV::D1($v) => $body.map(DV::D1),
+            DV::D2($v) => $body.map(DV::D2),
+            DV::D3($v) => $body.map(DV::D3),
+            DV::D4($v) => $body.map(DV::D4),
+            DV::D5($v) => $body.map(DV::D5),
+            DV::D6($v) => $body.map(DV::D6),
+        }
+    };
+}
+
+impl DV {
+    fn d(&self) -> usize {
+        match self {
+            DV::D0(_) => 0,
+            DV::D1(_) => 1,
+            DV::D2(_) => 2,
+            DV::D3(_) => 3,
+            DV::D4(_) => 4,
+            DV::D5(_) => 5,
+            DV::D6(_) => 6,
+        }
+    }
+    fn shape(&self) -> Vec<(&'static str, usize)> {
+        dv_each!(self, v => v.view_shape().to_vec())
+    }
+}
+
+#[derive(Debug)]
+enum Rej {
+    Reject,
+    Skip,
+}
+
+fn rej_str(r: &Rej) -> String {
+    match r {
+        Rej::Reject => "reject".into(),
+        Rej::Skip => "skip".into(),
+    }
+}
+
+// ---------------------------------------------------------------------------------------------
+// leaves
+// ---------------------------------------------------------------------------------------------
+
+enum LeafPtr {
+    T0(*mut Tensor<u64, 0>),
+    T1(*mut Tensor<u64, 1>),
+    T2(*mut Tensor<u64, 2>),
+    T3(*mut Tensor<u64, 3>),
+    T4(*mut Tensor<u64, 4>),
+    T5(*mut Tensor<u64, 5>),
+    T6(*mut Tensor<u64, 6>),
+    M(*mut Matrix<u64>),
+}
+
+struct Leaf {
+    id: u64,
+    ptr: LeafPtr,
+}
+
+impl Leaf {
+    /// the flat data of the leaf; only called while no view borrowing the leaf is alive
+    fn scan(&self) -> Vec<u64> {
+        unsafe {
+            match self.ptr {
+                LeafPtr::T0(p) => (*p).iter().collect(),
+                LeafPtr::T1(p) => (*p).iter().collect(),
+                LeafPtr::T2(p) => (*p).iter().collect(),
+                LeafPtr::T3(p) => (*p).iter().collect(),
+                LeafPtr::T4(p) => (*p).iter().collect(),
+                LeafPtr::T5(p) => (*p).iter().collect(),
+                LeafPtr::T6(p) => (*p).iter().collect(),
+                LeafPtr::M(p) => (*p).row_major_iter().collect(),
+            }
+        }
+    }
+    fn restore(&self) {
+        let id = self.id;
+        unsafe {
+            match self.ptr {
+                LeafPtr::T0(p) => fill(&mut *p, id),
+                LeafPtr::T1(p) => fill(&mut *p, id),
+                LeafPtr::T2(p) => fill(&mut *p, id),
+                LeafPtr::T3(p) => fill(&mut *p, id),
+                LeafPtr::T4(p) => fill(&mut *p, id),
+                LeafPtr::T5(p) => fill(&mut *p, id),
+                LeafPtr::T6(p) => fill(&mut *p, id),
+                LeafPtr::M(p) => {
+                    let (rows, columns) = (*p).size();
+                    let mut k = 0;
+                    for r in 0..rows {
+                        for c in 0..columns {
+                            (*p).set(r, c, id * LEAF_MUL + k);
+                            k += 1;
+                        }
+                    }
+                }
+            }
+        }
+    }
+    fn free(self) {
+        unsafe {
+            match self.ptr {
+                LeafPtr::T0(p) => drop(Box::from_raw(p)),
+                LeafPtr::T1(p) => drop(Box::from_raw(p)),
+                LeafPtr::T2(p) => drop(Box::from_raw(p)),
+                LeafPtr::T3(p) => drop(Box::from_raw(p)),
+                LeafPtr::T4(p) => drop(Box::from_raw(p)),
+                LeafPtr::T5(p) => drop(Box::from_raw(p)),
+                LeafPtr::T6(p) => drop(Box::from_raw(p)),
+                LeafPtr::M(p) => drop(Box::from_raw(p)),
+            }
+        }
+    }
+}
+
+fn fill<const D: usize>(t: &mut Tensor<u64, D>, id: u64) {
+    let mut k = 0;
+    for x in t.iter_reference_mut() {
+        *x = id * LEAF_MUL + k;
+        k += 1;
+    }
+}
+
+fn leaf_values(id: u64, n: usize) -> Vec<u64> {
+    (0..n as u64).map(|k| id * LEAF_MUL + k).collect()
+}
+
+// ---------------------------------------------------------------------------------------------
+// operations
+// ---------------------------------------------------------------------------------------------
+
+/// A mutation of an adaptor after its construction (replayed right after the constructor).
+#[derive(Clone, Debug)]
+enum Post {
+    /// `TensorRename::set_names`
+    SetNames(Vec<&'static str>),
+    /// `std::mem::swap(adaptor.source_ref_mut(), &mut <the view below on the stack>)`
+    Swap,
+}
+
+#[derive(Clone, Debug)]
+enum Op {
+    Leaf { id: u64, shape: Vec<(&'static str, usize)>, slot: Option<usize> },
+    Matrix { id: u64, rows: usize, cols: usize, names: [&'static str; 2], slot: Option<usize> },
+    MatrixOf { names: [&'static str; 2] },
+    Range { named: Vec<(&'static str, usize, usize)>, strict: bool, mask: bool },
+    Index { provided: Vec<(&'static str, usize)> },
+    Expand { extra: Vec<(usize, &'static str)> },
+    Rename { names: Vec<&'static str>, posts: Vec<Post> },
+    Reverse { names: Vec<&'static str>, posts: Vec<Post> },
+    Access { names: Vec<&'static str> },
+    Transpose { names: Vec<&'static str> },
+    Stack { n: usize, along: (usize, &'static str) },
+    Chain { n: usize, along: &'static str },
+}
+
+fn parse_triples(s: &str) -> Vec<(&'static str, usize, usize)> {
+    split_comma(s)
+        .iter()
+        .map(|part| {
+            let mut it = part.split(':');
+            let n = intern(it.next().expect("name"));
+            let a = it.next().expect("start").parse::<usize>().expect("usize");
+            let b = it.next().expect("length").parse::<usize>().expect("usize");
+            (n, a, b)
+        })
+        .collect()
+}
+
+fn parse_pos_names(s: &str) -> Vec<(usize, &'static str)> {
+    split_comma(s)
+        .iter()
+        .map(|part| {
+            let (p, n) = part.split_once(':').expect("pos:name");
+            (p.parse::<usize>().expect("usize"), intern(n))
+        })
+        .collect()
+}
+
+fn parse_op(toks: &[&str]) -> Option<Op> {
+    Some(match toks {
+        ["leaf", id, shape, ..] => Op::Leaf { id: id.parse().ok()?, shape: parse_shape(shape), slot: None },
+        ["matrix", id, rows, cols, names, ..] => {
+            let n = parse_names(names);
+            if n.len() != 2 {
+                return None;
+            }
+            Op::Matrix { id: id.parse().ok()?, rows: rows.parse().ok()?, cols: cols.parse().ok()?, names: [n[0], n[1]], slot: None }
+        }
+        ["matrixof", names, ..] => {
+            let n = parse_names(names);
+            if n.len() != 2 {
+                return None;
+            }
+            Op::MatrixOf { names: [n[0], n[1]] }
+        }
+        ["range", spec, rest @ ..] => Op::Range { named: parse_triples(spec), strict: opt_arg("kind", rest) == Some("strict"), mask: false },
+        ["mask", spec, rest @ ..] => Op::Range { named: parse_triples(spec), strict: opt_arg("kind", rest) == Some("strict"), mask: true },
+        ["index", spec, ..] => Op::Index { provided: parse_shape(spec) },
+        ["expand", spec, ..] => Op::Expand { extra: parse_pos_names(spec) },
+        ["rename", names, ..] => Op::Rename { names: parse_names(names), posts: vec![] },
+        ["reverse", names, ..] => Op::Reverse { names: parse_names(names), posts: vec![] },
+        ["access", names, ..] => Op::Access { names: parse_names(names) },
+        ["transpose", names, ..] => Op::Transpose { names: parse_names(names) },
+        ["stack", n, along, ..] => {
+            let a = parse_pos_names(along);
+            if a.len() != 1 {
+                return None;
+            }
+            Op::Stack { n: n.parse().ok()?, along: a[0] }
+        }
+        ["chain", n, along, ..] => Op::Chain { n: n.parse().ok()?, along: intern(along) },
+        _ => return None,
+    })
+}
+
+/// Optional extra indirection around a freshly built adaptor: `Box<S>` for a sized `S` that is
+/// itself a `Box<dyn TensorMut>` (exercises both `Box` impls of views/traits.rs).
+fn wrap<const D: usize>(x: Dyn<D>, via: &str) -> Dyn<D> {
+    if via.ends_with("+box") {
+        let inner: Box<Dyn<D>> = Box::new(x);
+        inner
+    } else {
+        x
+    }
+}
+
+macro_rules! with_p {
+    ($p:expr, $P:ident => $body:expr) => {
+        match $p {
+            0 => { const $P: usize = 0; $body }
+            1 => { const $P: usize = 1; $body }
+            2 => { const $P: usize = 2; $body }
+            3 => { const $P: usize = 3; $body }
+            4 => { const $P: usize = 4; $body }
+            5 => { const $P: usize = 5; $body }
+            6 => { const $P: usize = 6; $body }
+            7 => { const $P: usize = 7; $body }
+            _ => return Err(Rej::Skip),
+        }
+    };
+}
+
+fn range_op<const D: usize>(
+    src: Dyn<D>,
+    named: &[(&'static str, usize, usize)],
+    strict: bool,
+    mask: bool,
+    via: &str,
+) -> Result<Dyn<D>, Rej> {
+    let form = via.split('+').next().unwrap_or("from");
+    macro_rules! finish {
+        ($e:expr) => {
+            match $e {
+                Ok(v) => Ok(wrap(Box::new(v) as Dyn<D>, via)),
+                Err(_) => Err(Rej::Reject),
+            }
+        };
+    }
+    if form == "from_all" {
+        // positional form: only when the names are unique and all present (else the named form)
+        let shape = src.view_shape();
+        let mut all: [Option<IndexRange>; D] = std::array::from_fn(|_| None);
+        let mut ok = true;
+        for (i, (n, a, b)) in named.iter().enumerate() {
+            if named[..i].iter().any(|x| x.0 == *n) {
+                ok = false;
+            }
+            match shape.iter().position(|d| d.0 == *n) {
+                Some(d) => all[d] = Some(IndexRange::new(*a, *b)),
+                None => ok = false,
+            }
+        }
+        if ok {
+            return match (mask, strict) {
+                (false, false) => finish!(TensorRange::from_all(src, all)),
+                (false, true) => finish!(TensorRange::from_all_strict(src, all)),
+                (true, false) => finish!(TensorMask::from_all(src, all)),
+                (true, true) => finish!(TensorMask::from_all_strict(src, all)),
+            };
+        }
+    }
+    with_p!(named.len(), P => {
+        macro_rules! build {
+            ($ranges:expr) => {
+                match (mask, strict) {
+                    (false, false) => finish!(TensorRange::from(src, $ranges)),
+                    (false, true) => finish!(TensorRange::from_strict(src, $ranges)),
+                    (true, false) => finish!(TensorMask::from(src, $ranges)),
+                    (true, true) => finish!(TensorMask::from_strict(src, $ranges)),
+                }
+            };
+        }
+        let no_overflow = named.iter().all(|x| x.1.checked_add(x.2).is_some());
+        match form {
+            "tuple" => {
+                let r: [(&'static str, (usize, usize)); P] = std::array::from_fn(|i| (named[i].0, (named[i].1, named[i].2)));
+                build!(r)
+            }
+            "array" => {
+                let r: [(&'static str, [usize; 2]); P] = std::array::from_fn(|i| (named[i].0, [named[i].1, named[i].2]));
+                build!(r)
+            }
+            "stdrange" if no_overflow => {
+                let r: [(&'static str, std::ops::Range<usize>); P] =
+                    std::array::from_fn(|i| (named[i].0, named[i].1..(named[i].1 + named[i].2)));
+                build!(r)
+            }
+            _ => {
+                let r: [(&'static str, IndexRange); P] =
+                    std::array::from_fn(|i| (named[i].0, IndexRange::new(named[i].1, named[i].2)));
+                build!(r)
+            }
+        }
+    })
+}
+
+fn index_op(src: DV, provided: &[(&'static str, usize)], via: &str) -> Result<DV, Rej> {
+    macro_rules! go {
+        ($D:literal, $I:literal, $R:ident, $s:expr) => {{
+            let arr: [(&'static str, usize); $I] = std::array::from_fn(|k| provided[k]);
+            let v = TensorIndex::<u64, _, $D, $I>::from($s, arr);
+            Ok(DV::$R(wrap(Box::new(v), via)))
+        }};
+    }
+    match (src, provided.len()) {
+        (DV::D1(s), 1) => go!(1, 1, D0, s),
+        (DV::D2(s), 1) => go!(2, 1, D1, s),
+        (DV::D2(s), 2) => go!(2, 2, D0, s),
+        (DV::D3(s), 1) => go!(3, 1, D2, s),
+        (DV::D3(s), 2) => go!(3, 2, D1, s),
+        (DV::D3(s), 3) => go!(3, 3, D0, s),
+        (DV::D4(s), 1) => go!(4, 1, D3, s),
+        (DV::D4(s), 2) => go!(4, 2, D2, s),
+        (DV::D4(s), 3) => go!(4, 3, D1, s),
+        (DV::D4(s), 4) => go!(4, 4, D0, s),
+        (DV::D5(s), 1) => go!(5, 1, D4, s),
+        (DV::D5(s), 2) => go!(5, 2, D3, s),
+        (DV::D5(s), 3) => go!(5, 3, D2, s),
+        (DV::D5(s), 4) => go!(5, 4, D1, s),
+        (DV::D5(s), 5) => go!(5, 5, D0, s),
+        (DV::D6(s), 1) => go!(6, 1, D5, s),
+        (DV::D6(s), 2) => go!(6, 2, D4, s),
+        (DV::D6(s), 3) => go!(6, 3, D3, s),
+        (DV::D6(s), 4) => go!(6, 4, D2, s),
+        (DV::D6(s), 5) => go!(6, 5, D1, s),
+        (DV::D6(s), 6) => go!(6, 6, D0, s),
+        _ => Err(Rej::Skip),
+    }
+}
+
+fn expand_op(src: DV, extra: &[(usize, &'static str)], via: &str) -> Result<DV, Rej> {
+    macro_rules! go {
+        ($D:literal, $I:literal, $R:ident, $s:expr) => {{
+            let arr: [(usize, &'static str); $I] = std::array::from_fn(|k| extra[k]);
+            let v = TensorExpansion::<u64, _, $D, $I>::from($s, arr);
+            Ok(DV::$R(wrap(Box::new(v), via)))
+        }};
+    }
+    match (src, extra.len()) {
+        (DV::D0(s), 1) => go!(0, 1, D1, s),
+        (DV::D0(s), 2) => go!(0, 2, D2, s),
+        (DV::D0(s), 3) => go!(0, 3, D3, s),
+        (DV::D0(s), 4) => go!(0, 4, D4, s),
+        (DV::D0(s), 5) => go!(0, 5, D5, s),
+        (DV::D0(s), 6) => go!(0, 6, D6, s),
+        (DV::D1(s), 1) => go!(1, 1, D2, s),
+        (DV::D1(s), 2) => go!(1, 2, D3, s),
+        (DV::D1(s), 3) => go!(1, 3, D4, s),
+        (DV::D1(s), 4) => go!(1, 4, D5, s),
+        (DV::D1(s), 5) => go!(1, 5, D6, s),
+        (DV::D2(s), 1) => go!(2, 1, D3, s),
+        (DV::D2(s), 2) => go!(2, 2, D4, s),
+        (DV::D2(s), 3) => go!(2, 3, D5, s),
+        (DV::D2(s), 4) => go!(2, 4, D6, s),
+        (DV::D3(s), 1) => go!(3, 1, D4, s),
+        (DV::D3(s), 2) => go!(3, 2, D5, s),
+        (DV::D3(s), 3) => go!(3, 3, D6, s),
+        (DV::D4(s), 1) => go!(4, 1, D5, s),
+        (DV::D4(s), 2) => go!(4, 2, D6, s),
+        (DV::D5(s), 1) => go!(5, 1, D6, s),
+        _ => Err(Rej::Skip),
+    }
+}
+
+fn to_array<T, const N: usize>(v: Vec<T>) -> [T; N] {
+    match v.try_into() {
+        Ok(a) => a,
+        Err(_) => panic!("arity"),
+    }
+}
+
+fn same_d<const D: usize>(sources: Vec<DV>, pick: impl Fn(DV) -> Option<Dyn<D>>) -> Result<Vec<Dyn<D>>, Rej> {
+    let mut out = vec![];
+    for s in sources {
+        match pick(s) {
+            Some(x) => out.push(x),
+            None => return Err(Rej::Skip),
+        }
+    }
+    Ok(out)
+}
+
+fn stack_op(sources: Vec<DV>, along: (usize, &'static str), via: &str) -> Result<DV, Rej> {
+    let n = sources.len();
+    let tuple = via.starts_with("tuple") && n >= 2;
+    macro_rules! arm {
+        ($D:literal, $In:ident, $Out:ident) => {{
+            let v: Vec<Dyn<$D>> = same_d::<$D>(sources, |s| match s { DV::$In(x) => Some(x), _ => None })?;
+            let out: Dyn<{ $D + 1 }> = if tuple {
+                let mut it = v.into_iter();
+                match n {
+                    2 => {
+                        let s = (it.next().unwrap(), it.next().unwrap());
+                        Box::new(TensorStack::<u64, (_, _), $D>::from(s, along))
+                    }
+                    3 => {
+                        let s = (it.next().unwrap(), it.next().unwrap(), it.next().unwrap());
+                        Box::new(TensorStack::<u64, (_, _, _), $D>::from(s, along))
+                    }
+                    4 => {
+                        let s = (it.next().unwrap(), it.next().unwrap(), it.next().unwrap(), it.next().unwrap());
+                        Box::new(TensorStack::<u64, (_, _, _, _), $D>::from(s, along))
+                    }
+                    _ => return Err(Rej::Skip),
+                }
+            } else {
+                match n {
+                    1 => Box::new(TensorStack::<u64, [_; 1], $D>::from(to_array::<_, 1>(v), along)),
+                    2 => Box::new(TensorStack::<u64, [_; 2], $D>::from(to_array::<_, 2>(v), along)),
+                    3 => Box::new(TensorStack::<u64, [_; 3], $D>::from(to_array::<_, 3>(v), along)),
+                    4 => Box::new(TensorStack::<u64, [_; 4], $D>::from(to_array::<_, 4>(v), along)),
+                    _ => return Err(Rej::Skip),
+                }
+            };
+            Ok(DV::$Out(wrap(out, via)))
+        }};
+    }
+    match sources[0].d() {
+        0 => arm!(0, D0, D1),
+        1 => arm!(1, D1, D2),
+        2 => arm!(2, D2, D3),
+        3 => arm!(3, D3, D4),
+        4 => arm!(4, D4, D5),
+        5 => arm!(5, D5, D6),
+        _ => Err(Rej::Skip),
+    }
+}
+
+fn chain_n<const D: usize>(v: Vec<Dyn<D>>, along: &'static str, via: &str) -> Result<Dyn<D>, Rej> {
+    let n = v.len();
+    let tuple = via.starts_with("tuple") && n >= 2;
+    let out: Dyn<D> = if tuple {
+        let mut it = v.into_iter();
+        match n {
+            2 => {
+                let s = (it.next().unwrap(), it.next().unwrap());
+                Box::new(TensorChain::<u64, (_, _), D>::from(s, along))
+            }
+            3 => {
+                let s = (it.next().unwrap(), it.next().unwrap(), it.next().unwrap());
+                Box::new(TensorChain::<u64, (_, _, _), D>::from(s, along))
+            }
+            4 => {
+                let s = (it.next().unwrap(), it.next().unwrap(), it.next().unwrap(), it.next().unwrap());
+                Box::new(TensorChain::<u64, (_, _, _, _), D>::from(s, along))
+            }
+            _ => return Err(Rej::Skip),
+        }
+    } else {
+        match n {
+            1 => Box::new(TensorChain::<u64, [_; 1], D>::from(to_array::<_, 1>(v), along)),
+            2 => Box::new(TensorChain::<u64, [_; 2], D>::from(to_array::<_, 2>(v), along)),
+            3 => Box::new(TensorChain::<u64, [_; 3], D>::from(to_array::<_, 3>(v), along)),
+            4 => Box::new(TensorChain::<u64, [_; 4], D>::from(to_array::<_, 4>(v), along)),
+            _ => return Err(Rej::Skip),
+        }
+    };
+    Ok(wrap(out, via))
+}
+
+fn chain_op(sources: Vec<DV>, along: &'static str, via: &str) -> Result<DV, Rej> {
+    macro_rules! arm {
+        ($D:literal, $In:ident) => {{
+            let v: Vec<Dyn<$D>> = same_d::<$D>(sources, |s| match s { DV::$In(x) => Some(x), _ => None })?;
+            chain_n::<$D>(v, along, via).map(DV::$In)
+        }};
+    }
+    match sources[0].d() {
+        0 => arm!(0, D0),
+        1 => arm!(1, D1),
+        2 => arm!(2, D2),
+        3 => arm!(3, D3),
+        4 => arm!(4, D4),
+        5 => arm!(5, D5),
+        6 => arm!(6, D6),
+        _ => Err(Rej::Skip),
+    }
+}
+
+/// a `Box<dyn TensorMut<u64, D>>` as an element of the stack
+trait Slot: Sized {
+    fn from_dv(dv: DV) -> Result<Self, DV>;
+    fn into_dv(self) -> DV;
+}
+macro_rules! slot_impl {
+    ($D:literal, $V:ident) => {
+        impl Slot for Dyn<$D> {
+            fn from_dv(dv: DV) -> Result<Self, DV> {
+                match dv {
+                    DV::$V(x) => Ok(x),
+                    other => Err(other),
+                }
+            }
+            fn into_dv(self) -> DV {
+                DV::$V(self)
+            }
+        }
+    };
+}
+slot_impl!(0, D0);
+slot_impl!(1, D1);
+slot_impl!(2, D2);
+slot_impl!(3, D3);
+slot_impl!(4, D4);
+slot_impl!(5, D5);
+slot_impl!(6, D6);
+
+thread_local! {
+    /// outcome of the last `set_names` executed, and the names of the last TensorRename built
+    static LAST_SET_NAMES: std::cell::Cell<Option<Result<(), PanicKind>>> = const { std::cell::Cell::new(None) };
+    static LAST_NAMES: std::cell::RefCell<String> = const { std::cell::RefCell::new(String::new()) };
+}
+
+/// swaps the source behind `source_ref_mut` with the view on top of the stack
+fn swap_source<const D: usize>(source: &mut Dyn<D>, stack: &mut Vec<DV>) -> Result<(), Rej>
+where
+    Dyn<D>: Slot,
+{
+    let other = stack.pop().ok_or(Rej::Skip)?;
+    match <Dyn<D> as Slot>::from_dv(other) {
+        Ok(mut other) => {
+            std::mem::swap(source, &mut other);
+            stack.push(other.into_dv());
+            Ok(())
+        }
+        Err(other) => {
+            stack.push(other);
+            Err(Rej::Skip)
+        }
+    }
+}
+
+fn names_op<const D: usize>(
+    src: Dyn<D>,
+    kind: &str,
+    names: &[&'static str],
+    posts: &[Post],
+    stack: &mut Vec<DV>,
+    via: &str,
+) -> Result<Dyn<D>, Rej>
+where
+    Dyn<D>: Slot,
+{
+    if kind == "reverse" {
+        let mut v = TensorReverse::from(src, names);
+        for post in posts {
+            match post {
+                Post::Swap => swap_source(v.source_ref_mut(), stack)?,
+                Post::SetNames(_) => return Err(Rej::Skip),
+            }
+        }
+        return Ok(wrap(Box::new(v), via));
+    }
+    if names.len() != D {
+        return Err(Rej::Skip);
+    }
+    let arr: [&'static str; D] = names_array(names);
+    let fallible = via.starts_with("try_from");
+    Ok(match kind {
+        "rename" => {
+            let mut v = TensorRename::from(src, arr);
+            for post in posts {
+                match post {
+                    Post::Swap => swap_source(v.source_ref_mut(), stack)?,
+                    Post::SetNames(n) => {
+                        if n.len() != D {
+                            return Err(Rej::Skip);
+                        }
+                        let new_names: [&'static str; D] = names_array(n);
+                        // a refused call must leave the very same adaptor usable and unchanged
+                        let r = catch(|| v.set_names(new_names));
+                        LAST_SET_NAMES.with(|c| c.set(Some(r)));
+                    }
+                }
+            }
+            LAST_NAMES.with(|c| *c.borrow_mut() = show_names(v.get_names()));
+            wrap(Box::new(v), via)
+        }
+        "access" => {
+            if fallible {
+                match TensorAccess::try_from(src, arr) {
+                    Ok(v) => wrap(Box::new(v), via),
+                    Err(_) => return Err(Rej::Reject),
+                }
+            } else {
+                wrap(Box::new(TensorAccess::from(src, arr)), via)
+            }
+        }
+        "transpose" => {
+            if fallible {
+                match TensorTranspose::try_from(src, arr) {
+                    Ok(v) => wrap(Box::new(v), via),
+                    Err(_) => return Err(Rej::Reject),
+                }
+            } else {
+                wrap(Box::new(TensorTranspose::from(src, arr)), via)
+            }
+        }
+        _ => unreachable!(),
+    })
+}
+
+/// Applies `op` to the stack.  On `Err` the stack may have lost the consumed sources (the caller
+/// rebuilds it from the recipe).
+fn apply_op(stack: &mut Vec<DV>, op: &mut Op, arena: &mut Vec<Leaf>, via: &str) -> Result<(), Rej> {
+    match op {
+        Op::Leaf { id, shape, slot } => {
+            let d = shape.len();
+            if d > 6 {
+                return Err(Rej::Skip);
+            }
+            macro_rules! mk {
+                ($D:literal, $V:ident, $P:ident) => {{
+                    let s = match *slot {
+                        Some(s) => s,
+                        None => {
+                            let sh: [(&'static str, usize); $D] = shape_array(shape);
+                            let n: usize = shape.iter().map(|x| x.1).product();
+                            let t = Tensor::from(sh, leaf_values(*id, n));
+                            arena.push(Leaf { id: *id, ptr: LeafPtr::$P(Box::into_raw(Box::new(t))) });
+                            *slot = Some(arena.len() - 1);
+                            arena.len() - 1
+                        }
+                    };
+                    let r: &'static mut Tensor<u64, $D> = match arena[s].ptr {
+                        LeafPtr::$P(p) => unsafe { &mut *p },
+                        _ => unreachable!(),
+                    };
+                    stack.push(DV::$V(wrap(Box::new(r), via)));
+                }};
+            }
+            match d {
+                0 => mk!(0, D0, T0),
+                1 => mk!(1, D1, T1),
+                2 => mk!(2, D2, T2),
+                3 => mk!(3, D3, T3),
+                4 => mk!(4, D4, T4),
+                5 => mk!(5, D5, T5),
+                _ => mk!(6, D6, T6),
+            }
+            Ok(())
+        }
+        Op::Matrix { id, rows, cols, names, slot } => {
+            let s = match *slot {
+                Some(s) => s,
+                None => {
+                    let m = Matrix::from_flat_row_major((*rows, *cols), leaf_values(*id, *rows * *cols));
+                    arena.push(Leaf { id: *id, ptr: LeafPtr::M(Box::into_raw(Box::new(m))) });
+                    *slot = Some(arena.len() - 1);
+                    arena.len() - 1
+                }
+            };
+            let r: &'static mut Matrix<u64> = match arena[s].ptr {
+                LeafPtr::M(p) => unsafe { &mut *p },
+                _ => unreachable!(),
+            };
+            let v: Dyn<2> = if *names == ["row", "column"] && !via.starts_with("with_names") {
+                match TensorRefMatrix::from(r) {
+                    Ok(v) => Box::new(v),
+                    Err(_) => return Err(Rej::Reject),
+                }
+            } else {
+                match TensorRefMatrix::with_names(r, *names) {
+                    Ok(v) => Box::new(v),
+                    Err(_) => return Err(Rej::Reject),
+                }
+            };
+            stack.push(DV::D2(wrap(v, via)));
+            Ok(())
+        }
+        Op::MatrixOf { names } => {
+            let top = stack.pop().ok_or(Rej::Skip)?;
+            let src = match top {
+                DV::D2(src) => src,
+                other => {
+                    stack.push(other);
+                    return Err(Rej::Skip);
+                }
+            };
+            // the tensor view as a matrix (row or column major, or neither), possibly behind
+            // matrix wrappers that pass the layout on, as a tensor again
+            let matrix = MatrixRefTensor::from(src);
+            fn finish<M: MatrixMut<u64> + easy_ml::matrices::views::NoInteriorMutability + 'static>(
+                m: M,
+                names: [&'static str; 2],
+                via: &str,
+            ) -> Result<Dyn<2>, Rej> {
+                if names == ["row", "column"] && via.starts_with("from") {
+                    match TensorRefMatrix::from(m) {
+                        Ok(v) => Ok(Box::new(v)),
+                        Err(_) => Err(Rej::Reject),
+                    }
+                } else {
+                    match TensorRefMatrix::with_names(m, names) {
+                        Ok(v) => Ok(Box::new(v)),
+                        Err(_) => Err(Rej::Reject),
+                    }
+                }
+            }
+            let v: Dyn<2> = if via.contains("+mbox") {
+                finish(Box::new(matrix), *names, via)?
+            } else if via.contains("+mrange") {
+                let (rows, columns) = (matrix.view_rows(), matrix.view_columns());
+                finish(MatrixRange::from(matrix, 0..rows, 0..columns), *names, via)?
+            } else {
+                finish(matrix, *names, via)?
+            };
+            stack.push(DV::D2(wrap(v, via)));
+            Ok(())
+        }
+        Op::Range { named, strict, mask } => {
+            let top = stack.pop().ok_or(Rej::Skip)?;
+            let v = dv_same!(top, s => range_op(s, named, *strict, *mask, via))?;
+            stack.push(v);
+            Ok(())
+        }
+        Op::Index { provided } => {
+            let top = stack.pop().ok_or(Rej::Skip)?;
+            if provided.is_empty() || provided.len() > top.d() {
+                stack.push(top);
+                return Err(Rej::Skip);
+            }
+            let v = index_op(top, provided, via)?;
+            stack.push(v);
+            Ok(())
+        }
+        Op::Expand { extra } => {
+            let top = stack.pop().ok_or(Rej::Skip)?;
+            if extra.is_empty() || top.d() + extra.len() > 6 {
+                stack.push(top);
+                return Err(Rej::Skip);
+            }
+            let v = expand_op(top, extra, via)?;
+            stack.push(v);
+            Ok(())
+        }
+        Op::Rename { .. } | Op::Reverse { .. } | Op::Access { .. } | Op::Transpose { .. } => {
+            let no_posts: Vec<Post> = vec![];
+            let (kind, names, posts) = match op {
+                Op::Rename { names, posts } => ("rename", names, &*posts),
+                Op::Reverse { names, posts } => ("reverse", names, &*posts),
+                Op::Access { names } => ("access", names, &no_posts),
+                Op::Transpose { names } => ("transpose", names, &no_posts),
+                _ => unreachable!(),
+            };
+            let top = stack.pop().ok_or(Rej::Skip)?;
+            if kind != "reverse" && names.len() != top.d() {
+                stack.push(top);
+                return Err(Rej::Skip);
+            }
+            let v = dv_same!(top, s => names_op(s, kind, names, posts, stack, via))?;
+            stack.push(v);
+            Ok(())
+        }
+        Op::Stack { n, along } => {
+            let n = *n;
+            if n == 0 || n > 4 || n > stack.len() {
+                return Err(Rej::Skip);
+            }
+            let d = stack[stack.len() - n].d();
+            if stack[stack.len() - n..].iter().any(|s| s.d() != d) || d + 1 > 6 {
+                return Err(Rej::Skip);
+            }
+            let sources: Vec<DV> = stack.drain(stack.len() - n..).collect();
+            let v = stack_op(sources, *along, via)?;
+            stack.push(v);
+            Ok(())
+        }
+        Op::Chain { n, along } => {
+            let n = *n;
+            if n == 0 || n > 4 || n > stack.len() {
+                return Err(Rej::Skip);
+            }
+            let d = stack[stack.len() - n].d();
+            if stack[stack.len() - n..].iter().any(|s| s.d() != d) {
+                return Err(Rej::Skip);
+            }
+            let sources: Vec<DV> = stack.drain(stack.len() - n..).collect();
+            let v = chain_op(sources, along, via)?;
+            stack.push(v);
+            Ok(())
+        }
+    }
+}
+
+// ---------------------------------------------------------------------------------------------
+// questions
+// ---------------------------------------------------------------------------------------------
+
+fn show_cell(v: u64) -> String {
+    format!("{}:{}", v / LEAF_MUL, v % LEAF_MUL)
+}
+
+fn show_cell_opt(o: Option<u64>) -> String {
+    match o {
+        Some(v) => format!("some({})", show_cell(v)),
+        None => "none".into(),
+    }
+}
+
+fn none_or(k: PanicKind) -> String {
+    if k == PanicKind::Explicit { "none".into() } else { panic_str(k) }
+}
+
+fn get<const D: usize>(v: &mut Dyn<D>, idx: &[usize], via: &str) -> String {
+    if idx.len() != D {
+        return "skip".into();
+    }
+    let idx: [usize; D] = crate::util::to_array(idx);
+    if via.starts_with("unchecked") {
+        // the unchecked getters are only defined for valid indexes: never call them with an index
+        // the checked getter rejects (a case being shrunk may ask for one)
+        match catch(|| v.get_reference(idx).is_some()) {
+            Ok(true) => {}
+            Ok(false) => return "none".into(),
+            Err(k) => return panic_str(k),
+        }
+    }
+    let r: Result<Option<u64>, PanicKind> = match via {
+        "mut" => catch(|| v.get_reference_mut(idx).map(|r| *r)),
+        "unchecked" => catch(|| Some(unsafe { *v.get_reference_unchecked(idx) })),
+        "unchecked_mut" => catch(|| Some(unsafe { *v.get_reference_unchecked_mut(idx) })),
+        "access" => catch(|| TensorAccess::from_source_order(&*v).try_get_reference(idx).copied()),
+        "access_mut" => catch(|| TensorAccess::from_source_order(&mut *v).try_get_reference_mut(idx).map(|r| *r)),
+        "view_get_ref" => {
+            return match catch(|| *TensorView::from(&*v).index().get_ref(idx)) {
+                Ok(x) => show_cell_opt(Some(x)),
+                Err(k) => none_or(k),
+            }
+        }
+        "view_get" => {
+            return match catch(|| TensorView::from(&*v).index().get(idx)) {
+                Ok(x) => show_cell_opt(Some(x)),
+                Err(k) => none_or(k),
+            }
+        }
+        "boxed_ref" => catch(|| {
+            // a shared borrow of the boxed view, boxed again as a sized `S`
+            let b: Box<&Dyn<D>> = Box::new(&*v);
+            b.get_reference(idx).copied()
+        }),
+        _ => catch(|| v.get_reference(idx).copied()),
+    };
+    match r {
+        Ok(o) => show_cell_opt(o),
+        Err(k) => panic_str(k),
+    }
+}
+
+/// The write itself: returns the value found behind the mutable reference before the sentinel
+/// was stored (it identifies the cell), or `None`.
+fn set_write<const D: usize>(v: &mut Dyn<D>, idx: &[usize], via: &str) -> Result<Option<u64>, PanicKind> {
+    let idx: [usize; D] = crate::util::to_array(idx);
+    if via == "unchecked_mut" {
+        match catch(|| v.get_reference(idx).is_some()) {
+            Ok(true) => {}
+            Ok(false) => return Ok(None),
+            Err(k) => return Err(k),
+        }
+    }
+    match via {
+        "unchecked_mut" => catch(|| {
+            let r = unsafe { v.get_reference_unchecked_mut(idx) };
+            let old = *r;
+            *r = SENTINEL;
+            Some(old)
+        }),
+        "access_mut" => catch(|| {
+            TensorAccess::from_source_order(&mut *v).try_get_reference_mut(idx).map(|r| {
+                let old = *r;
+                *r = SENTINEL;
+                old
+            })
+        }),
+        "view_get_ref_mut" => match catch(|| {
+            let mut view = TensorView::from(&mut *v);
+            let mut access = view.index_mut();
+            let r = access.get_ref_mut(idx);
+            let old = *r;
+            *r = SENTINEL;
+            Some(old)
+        }) {
+            Err(PanicKind::Explicit) => Ok(None),
+            other => other,
+        },
+        _ => catch(|| {
+            v.get_reference_mut(idx).map(|r| {
+                let old = *r;
+                *r = SENTINEL;
+                old
+            })
+        }),
+    }
+}
+
+fn show_layout<const D: usize>(l: &DataLayout<D>) -> String {
+    match l {
+        DataLayout::Linear(order) => format!("linear={}", show_names(order)),
+        DataLayout::NonLinear => "nonlinear".into(),
+        DataLayout::Other => "other".into(),
+    }
+}
+
+fn all_indexes(lens: &[usize]) -> Vec<Vec<usize>> {
+    let mut out: Vec<Vec<usize>> = vec![vec![]];
+    for &l in lens {
+        let mut next = vec![];
+        for p in &out {
+            for c in 0..l {
+                let mut q = p.clone();
+                q.push(c);
+                next.push(q);
+            }
+        }
+        out = next;
+    }
+    out
+}
+
+fn memorder<const D: usize>(v: &Dyn<D>) -> String {
+    let r = catch(|| {
+        let layout = v.data_layout();
+        match TensorAccess::from_memory_order(v) {
+            None => "none".to_string(),
+            Some(access) => {
+                let order = match &layout {
+                    DataLayout::Linear(o) => show_names(o),
+                    _ => "?".into(),
+                };
+                let lens: Vec<usize> = access.shape().iter().map(|d| d.1).collect();
+                let mut cells: Vec<u64> = vec![];
+                for idx in all_indexes(&lens) {
+                    let idx: [usize; D] = crate::util::to_array(&idx);
+                    match access.try_get_reference(idx) {
+                        Some(x) => cells.push(*x),
+                        None => return "walk-failed".to_string(),
+                    }
+                }
+                // the library's own iteration order over the access must be the same walk
+                let iterated: Vec<u64> = access.iter().collect();
+                if iterated != cells {
+                    return "walk-differs-from-iter".to_string();
+                }
+                let first = cells[0];
+                if cells.iter().enumerate().all(|(k, c)| *c == first + k as u64) {
+                    format!("linear={} cells={}+{}", order, show_cell(first), cells.len())
+                } else {
+                    format!("linear={} cells={}", order, cells.iter().map(|c| show_cell(*c)).collect::<Vec<_>>().join(" "))
+                }
+            }
+        }
+    });
+    match r {
+        Ok(s) => s,
+        Err(k) => panic_str(k),
+    }
+}
+
+// ---------------------------------------------------------------------------------------------
+// the runner
+// ---------------------------------------------------------------------------------------------
+
+pub struct Runner {
+    arena: Vec<Leaf>,
+    recipe: Vec<(Op, String)>,
+    stack: Option<Vec<DV>>,
+    /// scripted answers of a statically typed case (until the case deviates from the script)
+    script: Option<(Vec<(String, String)>, usize, Vec<String>)>,
+}
+
+fn strip_via(line: &str) -> String {
+    line.split(' ').filter(|t| !t.starts_with("via=")).collect::<Vec<_>>().join(" ")
+}
 
 impl Runner {
     pub fn new() -> Runner {
-        Runner
+        Runner { arena: vec![], recipe: vec![], stack: Some(vec![]), script: None }
     }
 
-    pub fn step(&mut self, _toks: &[&str]) -> String {
-        "unimplemented".into()
+    fn reset(&mut self) {
+        self.stack = None;
+        self.recipe.clear();
+        for l in self.arena.drain(..) {
+            l.free();
+        }
+        self.stack = Some(vec![]);
+        self.script = None;
     }
+
+    fn rebuild(&mut self) {
+        self.stack = None; // drop every borrow of the leaves first
+        let mut stack = vec![];
+        let mut recipe = std::mem::take(&mut self.recipe);
+        for (op, via) in recipe.iter_mut() {
+            let r = catch(|| apply_op(&mut stack, op, &mut self.arena, via));
+            if !matches!(r, Ok(Ok(()))) {
+                panic!("recipe replay failed: {:?}", op);
+            }
+        }
+        self.recipe = recipe;
+        self.stack = Some(stack);
+    }
+
+    fn stack_mut(&mut self) -> &mut Vec<DV> {
+        if self.stack.is_none() {
+            self.rebuild();
+        }
+        self.stack.as_mut().unwrap()
+    }
+
+    fn construct(&mut self, mut op: Op, via: &str) -> String {
+        let mut stack = std::mem::take(self.stack_mut());
+        let r = catch(|| apply_op(&mut stack, &mut op, &mut self.arena, via));
+        match r {
+            Ok(Ok(())) => {
+                let ans = format!("ok shape={}", show_shape(&stack.last().unwrap().shape()));
+                self.recipe.push((op, via.to_string()));
+                self.stack = Some(stack);
+                ans
+            }
+            Ok(Err(rej)) => {
+                drop(stack);
+                self.stack = None;
+                rej_str(&rej)
+            }
+            Err(kind) => {
+                drop(stack);
+                self.stack = None;
+                if kind == PanicKind::Explicit { "reject".into() } else { panic_str(kind) }
+            }
+        }
+    }
+
+    /// A mutation of the adaptor on top of the stack (it must be the TensorRename / TensorReverse
+    /// the last accepted constructor built): the adaptor is built again, concretely typed, from
+    /// the recipe, all its earlier mutations are repeated and the new one is executed on it.
+    fn mutate(&mut self, post: Post) -> String {
+        let d = match self.stack_mut().last() {
+            Some(top) => top.d(),
+            None => return "skip".into(),
+        };
+        let second_d = {
+            let st = self.stack_mut();
+            if st.len() >= 2 { Some(st[st.len() - 2].d()) } else { None }
+        };
+        let applicable = match (self.recipe.last(), &post) {
+            (Some((Op::Rename { .. }, _)), Post::SetNames(n)) => n.len() == d,
+            (Some((Op::Rename { .. }, _)), Post::Swap) | (Some((Op::Reverse { .. }, _)), Post::Swap) => second_d == Some(d),
+            _ => false,
+        };
+        if !applicable {
+            return "skip".into();
+        }
+        let (old_op, via) = self.recipe.pop().unwrap();
+        let mut op = old_op.clone();
+        match &mut op {
+            Op::Rename { posts, .. } | Op::Reverse { posts, .. } => posts.push(post.clone()),
+            _ => unreachable!(),
+        }
+        self.rebuild();
+        let mut stack = std::mem::take(self.stack_mut());
+        LAST_SET_NAMES.with(|c| c.set(None));
+        let r = catch(|| apply_op(&mut stack, &mut op, &mut self.arena, &via));
+        match r {
+            Ok(Ok(())) => {
+                let shape = show_shape(&stack.last().unwrap().shape());
+                self.recipe.push((op, via));
+                self.stack = Some(stack);
+                match post {
+                    Post::Swap => format!("ok shape={}", shape),
+                    Post::SetNames(_) => match LAST_SET_NAMES.with(|c| c.get()) {
+                        Some(Ok(())) => format!("ok shape={}", shape),
+                        Some(Err(PanicKind::Explicit)) => "reject".into(),
+                        Some(Err(k)) => panic_str(k),
+                        None => "set-names-not-executed".into(),
+                    },
+                }
+            }
+            other => {
+                drop(stack);
+                self.recipe.push((old_op, via));
+                self.stack = None;
+                match other {
+                    Ok(Err(rej)) => rej_str(&rej),
+                    Err(k) => panic_str(k),
+                    _ => unreachable!(),
+                }
+            }
+        }
+    }
+
+    fn get_names(&mut self) -> String {
+        match self.recipe.last() {
+            Some((Op::Rename { .. }, _)) => {
+                // (re)build so that the names recorded are those of the adaptor now on top
+                self.rebuild();
+                format!("names={}", LAST_NAMES.with(|c| c.borrow().clone()))
+            }
+            _ => {
+                if self.stack_mut().is_empty() { "skip".into() } else { "skip".into() }
+            }
+        }
+    }
+
+    fn set(&mut self, idx: &[usize], via: &str) -> String {
+        {
+            let stack = self.stack_mut();
+            match stack.last() {
+                None => return "skip".into(),
+                Some(top) => {
+                    if top.d() != idx.len() {
+                        return "skip".into();
+                    }
+                }
+            }
+        }
+        let written = {
+            let stack = self.stack_mut();
+            let top = stack.last_mut().unwrap();
+            dv_each!(top, v => set_write(v, idx, via))
+        };
+        // a second look through the view: the addressed index now reads the sentinel
+        let reread = {
+            let stack = self.stack_mut();
+            let top = stack.last_mut().unwrap();
+            match written {
+                Ok(Some(_)) => dv_each!(top, v => get(v, idx, "ref")),
+                _ => String::new(),
+            }
+        };
+        // drop the views, scan the leaves, restore
+        self.stack = None;
+        let mut changed: Vec<(u64, usize, u64)> = vec![];
+        for leaf in &self.arena {
+            let data = leaf.scan();
+            for (k, x) in data.iter().enumerate() {
+                if *x != leaf.id * LEAF_MUL + k as u64 {
+                    changed.push((leaf.id, k, *x));
+                }
+            }
+            leaf.restore();
+        }
+        match written {
+            Err(k) => panic_str(k),
+            Ok(None) => {
+                if changed.is_empty() { "none".into() } else { "changed-without-reference".into() }
+            }
+            Ok(Some(old)) => {
+                let expected = format!("some({})", show_cell(SENTINEL));
+                if changed.len() == 1
+                    && changed[0].2 == SENTINEL
+                    && changed[0].0 * LEAF_MUL + changed[0].1 as u64 == old
+                    && reread == expected
+                {
+                    format!("changed={}:{}", changed[0].0, changed[0].1)
+                } else {
+                    format!(
+                        "changed-unexpected={} old={} reread={}",
+                        changed.iter().map(|c| format!("{}:{}", c.0, c.1)).collect::<Vec<_>>().join(" "),
+                        show_cell(old),
+                        reread
+                    )
+                }
+            }
+        }
+    }
+
+    fn dynamic_step(&mut self, toks: &[&str]) -> String {
+        let via = opt_arg("via", toks).unwrap_or("");
+        match toks {
+            ["@", ..] => {
+                self.reset();
+                "ok".into()
+            }
+            ["shape", ..] => match self.stack_mut().last() {
+                Some(top) => format!("shape={}", show_shape(&top.shape())),
+                None => "skip".into(),
+            },
+            ["get", idx_s, ..] => {
+                let idx = parse_usizes(idx_s);
+                match self.stack_mut().last_mut() {
+                    Some(top) => dv_each!(top, v => get(v, &idx, via)),
+                    None => "skip".into(),
+                }
+            }
+            ["set", idx_s, ..] => {
+                let idx = parse_usizes(idx_s);
+                self.set(&idx, via)
+            }
+            ["set_names", names, ..] => self.mutate(Post::SetNames(parse_names(names))),
+            ["swap_source", ..] => self.mutate(Post::Swap),
+            ["get_names", ..] => self.get_names(),
+            ["layout", ..] => match self.stack_mut().last() {
+                Some(top) => match catch(|| dv_each!(top, v => show_layout(&v.data_layout()))) {
+                    Ok(s) => s,
+                    Err(k) => panic_str(k),
+                },
+                None => "skip".into(),
+            },
+            ["memorder", ..] => match self.stack_mut().last() {
+                Some(top) => dv_each!(top, v => memorder(v)),
+                None => "skip".into(),
+            },
+            _ => match parse_op(toks) {
+                Some(op) => self.construct(op, via),
+                None => "bad-op".into(),
+            },
+        }
+    }
+
+    pub fn step(&mut self, toks: &[&str]) -> String {
+        let line = toks.join(" ");
+        if let ["@", "static", key, ..] = toks {
+            self.reset();
+            let script = static_case(key);
+            self.script = Some((script, 0, vec![line]));
+            return "ok".into();
+        }
+        if toks.first() == Some(&"@") {
+            return self.dynamic_step(toks);
+        }
+        if let Some((script, pos, seen)) = self.script.as_mut() {
+            if *pos < script.len() && strip_via(&script[*pos].0) == strip_via(&line) {
+                let ans = script[*pos].1.clone();
+                *pos += 1;
+                seen.push(line);
+                return ans;
+            }
+            // the case deviates from the catalogue entry (it is being shrunk): replay what was
+            // received so far through the dynamic engine and continue there
+            let seen = std::mem::take(seen);
+            self.script = None;
+            self.reset();
+            for l in seen.iter().skip(1) {
+                let t: Vec<&str> = l.split_whitespace().collect();
+                self.dynamic_step(&t);
+            }
+        }
+        self.dynamic_step(toks)
+    }
+}
+
+// ---------------------------------------------------------------------------------------------
+// statically typed compositions
+// ---------------------------------------------------------------------------------------------
+
+struct Script(Vec<(String, String)>);
+
+impl Script {
+    fn rec(&mut self, op: String, ans: String) {
+        self.0.push((op, ans));
+    }
+    fn leaf<const D: usize>(&mut self, id: u64, shape: [(&'static str, usize); D]) -> Tensor<u64, D> {
+        let n: usize = shape.iter().map(|d| d.1).product();
+        let t = Tensor::from(shape, leaf_values(id, n));
+        self.rec(format!("leaf {} {} via=static", id, show_shape(&shape)), format!("ok shape={}", show_shape(&shape)));
+        t
+    }
+    fn built<S: TensorRef<u64, D>, const D: usize>(&mut self, op: &str, v: &S) {
+        self.rec(format!("{} via=static", op), format!("ok shape={}", show_shape(&v.view_shape())));
+    }
+    /// shape, layout and reads over every coordinate in `0..=len` plus `usize::MAX`
+    fn probe<S: TensorRef<u64, D>, const D: usize>(&mut self, v: &S) {
+        let shape = v.view_shape();
+        self.rec("shape via=static".into(), format!("shape={}", show_shape(&shape)));
+        self.rec("layout via=static".into(), show_layout(&v.data_layout()));
+        let lens: Vec<usize> = shape.iter().map(|d| d.1).collect();
+        let mut tuples: Vec<Vec<usize>> = vec![vec![]];
+        for &l in &lens {
+            let mut next = vec![];
+            for p in &tuples {
+                let mut choices: Vec<usize> = (0..=l).collect();
+                choices.push(usize::MAX);
+                for c in choices {
+                    let mut q = p.clone();
+                    q.push(c);
+                    next.push(q);
+                }
+            }
+            tuples = next;
+        }
+        for t in tuples {
+            let idx: [usize; D] = crate::util::to_array(&t);
+            let inside = t.iter().zip(lens.iter()).all(|(i, l)| i < l);
+            let ans = match catch(|| v.get_reference(idx).copied()) {
+                Ok(o) => show_cell_opt(o),
+                Err(k) => panic_str(k),
+            };
+            self.rec(format!("get {} via=static", show_usizes(&t)), ans);
+            if inside {
+                let ans = match catch(|| unsafe { *v.get_reference_unchecked(idx) }) {
+                    Ok(x) => show_cell_opt(Some(x)),
+                    Err(k) => panic_str(k),
+                };
+                self.rec(format!("get {} via=unchecked_static", show_usizes(&t)), ans);
+            }
+        }
+    }
+    /// `TensorAccess::from_memory_order` walked in its own order
+    fn memorder<S: TensorRef<u64, D>, const D: usize>(&mut self, v: &S) {
+        let ans = match catch(|| {
+            let layout = v.data_layout();
+            match TensorAccess::from_memory_order(v) {
+                None => "none".to_string(),
+                Some(access) => {
+                    let order = match &layout {
+                        DataLayout::Linear(o) => show_names(o),
+                        _ => "?".into(),
+                    };
+                    let cells: Vec<u64> = access.iter().collect();
+                    let first = cells[0];
+                    if cells.iter().enumerate().all(|(k, c)| *c == first + k as u64) {
+                        format!("linear={} cells={}+{}", order, show_cell(first), cells.len())
+                    } else {
+                        format!("linear={} cells={}", order, cells.iter().map(|c| show_cell(*c)).collect::<Vec<_>>().join(" "))
+                    }
+                }
+            }
+        }) {
+            Ok(a) => a,
+            Err(k) => panic_str(k),
+        };
+        self.rec("memorder via=static".into(), ans);
+    }
+    /// writes through every in-range coordinate (and a few out of range): the value found behind
+    /// the reference identifies the cell, the re-read must show the sentinel, every other
+    /// coordinate of the view must be unchanged
+    fn probe_mut<S: TensorMut<u64, D>, const D: usize>(&mut self, v: &mut S) {
+        let shape = v.view_shape();
+        let lens: Vec<usize> = shape.iter().map(|d| d.1).collect();
+        let inside = all_indexes(&lens);
+        let mut targets = inside.clone();
+        for d in 0..D {
+            let mut t: Vec<usize> = vec![0; D];
+            t[d] = lens[d];
+            targets.push(t.clone());
+            t[d] = usize::MAX;
+            targets.push(t);
+        }
+        for t in targets {
+            let idx: [usize; D] = crate::util::to_array(&t);
+            let before: Vec<Option<u64>> = inside.iter().map(|i| v.get_reference(crate::util::to_array(i)).copied()).collect();
+            let r = catch(|| {
+                v.get_reference_mut(idx).map(|r| {
+                    let old = *r;
+                    *r = SENTINEL;
+                    old
+                })
+            });
+            let ans = match r {
+                Err(k) => panic_str(k),
+                Ok(None) => "none".to_string(),
+                Ok(Some(old)) => {
+                    let after: Vec<Option<u64>> = inside.iter().map(|i| v.get_reference(crate::util::to_array(i)).copied()).collect();
+                    let diff: Vec<usize> = (0..inside.len()).filter(|&k| before[k] != after[k]).collect();
+                    let ok = diff.len() == 1 && inside[diff[0]] == t && after[diff[0]] == Some(SENTINEL) && before[diff[0]] == Some(old);
+                    // restore
+                    if let Some(r) = v.get_reference_mut(idx) {
+                        *r = old;
+                    }
+                    if ok { format!("changed={}", show_cell(old)) } else { format!("changed-unexpected old={}", show_cell(old)) }
+                }
+            };
+            self.rec(format!("set {} via=static", show_usizes(&t)), ans);
+        }
+    }
+}
+
+const STATIC_KEYS: [&str; 13] = [
+    "stack_tuple2_refs", "stack_tuple3_mixed", "stack_tuple4_owned", "stack_array_boxed_ref",
+    "chain_tuple2_mut", "chain_tuple3_refs", "chain_tuple4_owned", "chain_array3_refs",
+    "matrix_backed", "tensor_methods", "matrix_of_tensor_view", "rename_setters",
+    "reverse_swap_source",
+];
+
+fn static_case(key: &str) -> Vec<(String, String)> {
+    let mut s = Script(vec![]);
+    match key {
+        "stack_tuple2_refs" => {
+            let t1 = s.leaf(1, [("a", 2), ("b", 3)]);
+            let t2 = s.leaf(2, [("a", 2), ("b", 3)]);
+            let v = TensorStack::<u64, (_, _), 2>::from((&t1, &t2), (1, "s"));
+            s.built("stack 2 1:s", &v);
+            s.probe(&v);
+            let r = TensorReverse::from(&v, &["s", "b"]);
+            s.built("reverse s,b", &r);
+            s.probe(&r);
+        }
+        "stack_tuple3_mixed" => {
+            let t1 = s.leaf(1, [("x", 2)]);
+            let mut t2 = s.leaf(2, [("x", 2)]);
+            let t3 = s.leaf(3, [("x", 2)]);
+            let mut v = TensorStack::<u64, (_, _, _), 1>::from((t1, &mut t2, Box::new(t3)), (0, "s"));
+            s.built("stack 3 0:s", &v);
+            s.probe(&v);
+            s.probe_mut(&mut v);
+        }
+        "stack_tuple4_owned" => {
+            let t1 = s.leaf(1, []);
+            let t2 = s.leaf(2, []);
+            let t3 = s.leaf(3, []);
+            let t4 = s.leaf(4, []);
+            let mut v = TensorStack::<u64, (_, _, _, _), 0>::from((t1, t2, t3, t4), (0, "s"));
+            s.built("stack 4 0:s", &v);
+            s.probe(&v);
+            s.probe_mut(&mut v);
+        }
+        "stack_array_boxed_ref" => {
+            let t1 = s.leaf(1, [("a", 2), ("b", 2)]);
+            let t2 = s.leaf(2, [("a", 2), ("b", 2)]);
+            let t3 = s.leaf(3, [("a", 2), ("b", 2)]);
+            let sources: [Box<dyn TensorRef<u64, 2>>; 3] = [Box::new(t1), Box::new(t2), Box::new(t3)];
+            let v = TensorStack::<u64, [_; 3], 2>::from(sources, (2, "s"));
+            s.built("stack 3 2:s", &v);
+            s.probe(&v);
+            let i = TensorIndex::<u64, _, 3, 1>::from(&v, [("s", 2)]);
+            s.built("index s:2", &i);
+            s.probe(&i);
+        }
+        "chain_tuple2_mut" => {
+            let mut t1 = s.leaf(1, [("a", 2), ("b", 3)]);
+            let mut t2 = s.leaf(2, [("a", 2), ("b", 1)]);
+            let mut v = TensorChain::<u64, (_, _), 2>::from((&mut t1, &mut t2), "b");
+            s.built("chain 2 b", &v);
+            s.probe(&v);
+            s.probe_mut(&mut v);
+        }
+        "chain_tuple3_refs" => {
+            let t1 = s.leaf(1, [("a", 1), ("b", 2)]);
+            let t2 = s.leaf(2, [("a", 3), ("b", 2)]);
+            let t3 = s.leaf(3, [("a", 2), ("b", 2)]);
+            let v = TensorChain::<u64, (_, _, _), 2>::from((&t1, &t2, &t3), "a");
+            s.built("chain 3 a", &v);
+            s.probe(&v);
+            let m = TensorMask::from(&v, [("a", IndexRange::new(1, 3))]).unwrap();
+            s.built("mask a:1:3", &m);
+            s.probe(&m);
+        }
+        "chain_tuple4_owned" => {
+            let t1 = s.leaf(1, [("a", 1)]);
+            let t2 = s.leaf(2, [("a", 2)]);
+            let t3 = s.leaf(3, [("a", 1)]);
+            let t4 = s.leaf(4, [("a", 3)]);
+            let mut v = TensorChain::<u64, (_, _, _, _), 1>::from((t1, t2, t3, t4), "a");
+            s.built("chain 4 a", &v);
+            s.probe(&v);
+            s.probe_mut(&mut v);
+        }
+        "chain_array3_refs" => {
+            let t1 = s.leaf(1, [("a", 2), ("b", 2)]);
+            let t2 = s.leaf(2, [("a", 2), ("b", 1)]);
+            let t3 = s.leaf(3, [("a", 2), ("b", 3)]);
+            let v = TensorChain::<u64, [_; 3], 2>::from([&t1, &t2, &t3], "b");
+            s.built("chain 3 b", &v);
+            s.probe(&v);
+            let e = TensorExpansion::<u64, _, 2, 2>::from(&v, [(1, "y"), (1, "x")]);
+            s.built("expand 1:y,1:x", &e);
+            s.probe(&e);
+        }
+        "matrix_backed" => {
+            let mut m = Matrix::from_flat_row_major((2, 3), leaf_values(1, 6));
+            s.rec("matrix 1 2 3 row,column via=static".into(), "ok shape=row:2,column:3".into());
+            {
+                let v = TensorRefMatrix::from(&m).unwrap();
+                s.probe(&v);
+                let memory = TensorAccess::from_memory_order(&v).unwrap();
+                let walked: Vec<u64> = memory.iter().collect();
+                let first = walked[0];
+                let ans = if walked.iter().enumerate().all(|(k, c)| *c == first + k as u64) {
+                    format!("linear=row,column cells={}+{}", show_cell(first), walked.len())
+                } else {
+                    "walk-not-contiguous".into()
+                };
+                s.rec("memorder via=static".into(), ans);
+            }
+            let mut v = TensorRefMatrix::with_names(&mut m, ["row", "column"]).unwrap();
+            s.probe_mut(&mut v);
+            let mut t = TensorTranspose::from(v, ["column", "row"]);
+            s.built("transpose column,row", &t);
+            s.probe(&t);
+            s.probe_mut(&mut t);
+        }
+        "tensor_methods" => {
+            let mut t = s.leaf(1, [("a", 2), ("b", 3), ("c", 2)]);
+            {
+                let r = t.range([("b", 1..3)]).unwrap();
+                s.built("range b:1:2", r.source_ref());
+                s.probe(r.source_ref());
+                let m = r.mask([("c", 0..1)]).unwrap();
+                s.built("mask c:0:1", m.source_ref());
+                s.probe(m.source_ref());
+                let rev = m.reverse(&["a", "b"]);
+                s.built("reverse a,b", rev.source_ref());
+                s.probe(rev.source_ref());
+                let sel = rev.select([("a", 1)]);
+                s.built("index a:1", sel.source_ref());
+                s.probe(sel.source_ref());
+                let ex = sel.expand([(0, "x")]);
+                s.built("expand 0:x", ex.source_ref());
+                s.probe(ex.source_ref());
+                let tr = ex.transpose_view(["c", "x", "b"]);
+                s.built("transpose c,x,b", tr.source_ref());
+                s.probe(tr.source_ref());
+                let rn = tr.rename_view(["p", "q", "r"]);
+                s.built("rename p,q,r", rn.source_ref());
+                s.probe(rn.source_ref());
+            }
+            let _ = &mut t;
+        }
+        "matrix_of_tensor_view" => {
+            let t = s.leaf(1, [("a", 2), ("b", 3)]);
+            // row major: the tensor itself as a matrix as a tensor
+            {
+                let v = TensorRefMatrix::with_names(MatrixRefTensor::from(&t), ["x", "y"]).unwrap();
+                s.built("matrixof x,y", &v);
+                s.probe(&v);
+                s.memorder(&v);
+            }
+            // column major: the reordered tensor as a matrix as a tensor
+            let t2 = s.leaf(2, [("a", 2), ("b", 3)]);
+            let reordered = t2.index_by(["b", "a"]);
+            s.built("access b,a", &reordered);
+            let v = TensorRefMatrix::with_names(MatrixRefTensor::from(reordered), ["x", "y"]).unwrap();
+            s.built("matrixof x,y", &v);
+            s.probe(&v);
+            s.memorder(&v);
+            // and transposed once more: the layout has to follow
+            let tr = TensorTranspose::from(&v, ["y", "x"]);
+            s.built("transpose y,x", &tr);
+            s.probe(&tr);
+            s.memorder(&tr);
+        }
+        "rename_setters" => {
+            // the mutators of an existing adaptor: TensorRename::set_names (directly and through
+            // TensorView::source_ref_mut), source_ref_mut of TensorRename / TensorReverse
+            let other = s.leaf(2, [("c", 3), ("d", 1)]);
+            let t = s.leaf(1, [("a", 2), ("b", 3)]);
+            let mut r = TensorRename::from(t, ["x", "y"]);
+            s.built("rename x,y", &r);
+            s.rec("get_names via=static".into(), format!("names={}", show_names(r.get_names())));
+            let refused = catch(|| r.set_names(["p", "p"]));
+            s.rec("set_names p,p via=static".into(), match refused {
+                Ok(()) => format!("ok shape={}", show_shape(&r.view_shape())),
+                Err(PanicKind::Explicit) => "reject".into(),
+                Err(k) => panic_str(k),
+            });
+            s.rec("get_names via=static".into(), format!("names={}", show_names(r.get_names())));
+            s.probe(&r);
+            let accepted = catch(|| r.set_names(["y", "x"]));
+            s.rec("set_names y,x via=static".into(), match accepted {
+                Ok(()) => format!("ok shape={}", show_shape(&r.view_shape())),
+                Err(PanicKind::Explicit) => "reject".into(),
+                Err(k) => panic_str(k),
+            });
+            s.probe(&r);
+            s.probe_mut(&mut r);
+            // through a TensorView
+            let mut view = TensorView::from(r);
+            let refused = catch(|| view.source_ref_mut().set_names(["y", "y"]));
+            s.rec("set_names y,y via=static_view".into(), match refused {
+                Ok(()) => format!("ok shape={}", show_shape(&view.shape())),
+                Err(PanicKind::Explicit) => "reject".into(),
+                Err(k) => panic_str(k),
+            });
+            s.rec("shape via=static".into(), format!("shape={}", show_shape(&view.shape())));
+            let accepted = catch(|| view.source_ref_mut().set_names(["u", "v"]));
+            s.rec("set_names u,v via=static_view".into(), match accepted {
+                Ok(()) => format!("ok shape={}", show_shape(&view.shape())),
+                Err(PanicKind::Explicit) => "reject".into(),
+                Err(k) => panic_str(k),
+            });
+            let mut r = view.source();
+            // the source replaced by a tensor of another shape
+            let mut other = other;
+            std::mem::swap(r.source_ref_mut(), &mut other);
+            s.rec("swap_source via=static".into(), format!("ok shape={}", show_shape(&r.view_shape())));
+            s.probe(&r);
+            s.probe_mut(&mut r);
+        }
+        "reverse_swap_source" => {
+            let mut other = s.leaf(2, [("c", 3), ("d", 2)]);
+            let t = s.leaf(1, [("a", 2), ("b", 3)]);
+            let mut rev = TensorReverse::from(t, &["b"]);
+            s.built("reverse b", &rev);
+            s.probe(&rev);
+            // the flags are kept by position: the second dimension of the new source is reversed
+            std::mem::swap(rev.source_ref_mut(), &mut other);
+            s.rec("swap_source via=static".into(), format!("ok shape={}", show_shape(&rev.view_shape())));
+            s.probe(&rev);
+            s.probe_mut(&mut rev);
+        }
+        other => panic!("unknown static case {}", other),
+    }
+    s.0
+}
+
+// ---------------------------------------------------------------------------------------------
+// generation
+// ---------------------------------------------------------------------------------------------
+
+#[path = "c02_gen.rs"]
+mod generator;
+
+pub fn gen(g: &mut Gen) {
+    silence_panics();
+    generator::gen(g, &STATIC_KEYS, &|key| static_case(key).into_iter().map(|x| x.0).collect());
 }
